@@ -523,7 +523,25 @@ func mainTreeOf(ms *yang.Modules, key string) string {
 	return strings.NewReplacer("s1:", "m:", "s2:", "m:").Replace(sb.String())
 }
 
-var unsplit string
+var unsplit, unsplitRebuilt string
+
+// rebuiltNames: the data nodes of module m when its tree is built anew after the entry cache was
+// dropped (without a processing run, so without the late augments - in the split module and in
+// the unsplit one alike).
+func rebuiltNames(ms *yang.Modules) string {
+	ms.ClearEntryCache()
+	e := yang.ToEntry(ms.Modules["m"])
+	var ks []string
+	for k, c := range e.Dir {
+		n := 0
+		if c != nil {
+			n = len(c.Dir)
+		}
+		ks = append(ks, fmt.Sprintf("%s/%d", k, n))
+	}
+	sort.Strings(ks)
+	return strings.Join(ks, " ")
+}
 
 func checkSplit(in SplitInput) *fail {
 	var f *fail
@@ -538,6 +556,7 @@ func checkSplit(in SplitInput) *fail {
 				panic("unsplit module has errors: " + dump.Errors(r.ProcErrs))
 			}
 			unsplit = mainTree(r.MS)
+			unsplitRebuilt = rebuiltNames(r.MS)
 		}
 		files := splitFiles(in)
 		if in.TwoRevs {
@@ -583,6 +602,10 @@ func checkSplit(in SplitInput) *fail {
 			}
 			if got := mainTree(r.MS); got != unsplit {
 				f = &fail{"split-differs-from-unsplit", unsplit, got, nil}
+				return
+			}
+			if got := rebuiltNames(r.MS); got != unsplitRebuilt {
+				f = &fail{"tree-rebuilt-after-ClearEntryCache-lacks-submodule-nodes", unsplitRebuilt, got, nil}
 				return
 			}
 		}
